@@ -101,6 +101,31 @@ def atmosphere_cases(chk, n):
     return cases, descr
 
 
+def array_consistency(chk, n):
+    """every quantity evaluated on an ARRAY of altitudes that spans several layers equals the values obtained one altitude at a time
+    (the scene samples all control points of all aircraft in one call)"""
+    from machupX.standard_atmosphere import StandardAtmosphere
+    rng = chk.rng
+    for i in range(n):
+        en = rng.random() < 0.5
+        sa = StandardAtmosphere("English" if en else "SI")
+        Zs = sorted(rng.uniform(-500.0, 85000.0) for _ in range(rng.randint(2, 6))) + [rng.choice([5000.0, 12000.0, 25000.0, 60000.0, 80000.0])]
+        rng.shuffle(Zs)
+        hs = np.array([z / 0.3048 if en else z for z in Zs])
+        for name in WHICH:
+            f = getattr(sa, name)
+            try:
+                arr = np.asarray(f(hs), dtype=float)
+                one = np.array([float(f(float(h))) for h in hs])
+            except Exception as e:
+                chk.violation("atmos:array-raises", dict(kind="atmos-array", english=en, method=name, h=hs.tolist(), error=repr(e)))
+                return
+            chk.case(dict(kind="atmos-array", english=en, method=name, n=len(hs), i=i), nontrivial=True)
+            if arr.shape != one.shape or not np.allclose(arr, one, rtol=1e-12, atol=0.0):
+                chk.violation("atmos:array-vs-scalar:" + name, dict(kind="atmos-array", english=en, method=name, h=hs.tolist(), array=arr.tolist(), one_by_one=one.tolist()))
+                return
+
+
 def interp_cases(chk, n):
     rng = chk.rng
     cases, descr = [], []
@@ -376,6 +401,7 @@ def run(chk):
     ode_search(chk, chk.q(40, 400))
     scene_sampling(chk, MX, chk.q(16, 120))
     field_tables(chk, MX, chk.q(4, 30))
+    array_consistency(chk, chk.q(10, 80))
     if errors:
         chk.fail_obligation("correspondence:Model/Atmos.v(case files do not compile)", "\n".join(errors)[-3000:])
     elif failing and len(chk.violations) == nv0 and not chk.known_hits:
